@@ -43,6 +43,16 @@ RULE = ("exhaustive small universe (coefficients in {-1,0,1,2}, lb<=3, la<=3) pl
         "ZeroDivisionError branch), memory and zero omitted / keyword / positional, memory as thub / callable returning a Stream / "
         "callable object / partial / endless Stream, zero spelled int / bool / float / Fraction / complex, Gaussian-integer / "
         "dyadic-complex / Fraction / int samples, inputs incl. thub and endless iterators consumed with take(n); "
+        "+ round 4: complex HISTORIES (entry ghist: the history templates over Q(i), Gaussian-integer coefficients / samples / "
+        "memories, complex twins c+0j of int / float / Fraction filters called in both orders) and complex CASCADES (entry gcascade); "
+        "dense-list T3 (entry gcompile: every special spelling in every position of b, a[1:], a[0], all zero spellings of the all-zero "
+        "filter); family gain: a[0] of every spelling other than +-1 (int, negative, huge, integer-valued / other Fraction, float; "
+        "over Q(i) also bool and complex) x exact samples (Fractions with odd denominators, huge integers), compared with tolerance 0 "
+        "whenever the coefficients are integers, + the SPELLING of the divisor literal in the source; family free: all-zero numerators "
+        "(none / [] / 0 / 0.0 / 0j / False / Fraction(0), 0..3 of them) x denominators of order 1..3 x memory kinds x non-null zero "
+        "values, output compared with the free response; family memread: iterator memories (counting iterator, generator, iter(list), "
+        "Stream; lengths 0..lm+3 and endless) on orders 0..4, observed right after the call (items pulled, next items), callable "
+        "memories log what they are asked; "
         "a case is non-trivial when the impl yields at least one sample or raises; distinct = distinct JSON case")
 TRUSTED = [
     "hand-written Lean model ALV/Model/C04.lean of LinearFilter.__init__/__call__ (modelled, not verified: Poly "
@@ -71,6 +81,12 @@ TRUSTED = [
     "folds python's printed complex constants ('(1+2j)', '(-0-1j)', '--1j') exactly; modelled, not verified: Poly(number) = "
     "{0: number}, Poly(None) = {}, ZFilter(filt, c) multiplies the numerator by 1/c (1/0 raises at construction); an endless "
     "input is observed through a counting iterator (pulled items = outputs taken: one_output_per_input + prefix_causal)",
+    "round 4: how an ITERATOR memory is read is modelled (ALV/Model/C04Mem.lean: `readMem` = the takewhile / enumerate "
+    "comprehension over an iterator seen as what it will still deliver; memory_iterator_reads: lm items kept, min(lm+1, len) pulled, "
+    "rest = drop (lm+1)) and tied: the caller's iterator is observed right after the call; modelled, not verified: an iterator is "
+    "determined by the items it will deliver, containers (list / tuple / deque) are not affected by enumerate(); the spelling of the "
+    "gain literal in the generated source (int / float / p/q / complex: python's str.format of the coefficient object) is checked "
+    "by the harness against the type of a[0] in the case - the Lean model has field elements, not python types",
     "long cases: the Lean driver does not execute the generated loop statement by statement (O(order^2) per sample) "
     "but answers with specCall, equal to the model by theorem filterCall_eq_specCall; the generated source of every "
     "long case is still compared structurally (T3)",
@@ -97,7 +113,12 @@ MANIFEST = {
                  "lengths; constructor arguments to outputs end to end; histories of lazily consumed streams over a "
                  "heap of caller objects) + translator tie T3 (captured source vs Lean compile, structural) + exact "
                  "I/O differential (single calls, long orders / inputs, histories in isolated processes)",
-    "note": "47 theorems, no pending statement; round 3: special cases of the string building proved neutral for every field "
+    "note": "68 theorems, no pending statement, every definition the driver runs is in a theorem statement (105/105); round 4: "
+            "constructor argument kinds denote the documented polynomial (coefArg_denotes), ZFilter(filt, c) = filt / c (castDiv_is_division), "
+            "the gain is applied by division (gain_is_division; over a field = times the inverse, so only T3 + the exact regime pin the "
+            "operator: gain_division_value), the trivial generator iff numerator AND feedback are zero (const_loop_iff) and the free "
+            "response otherwise (zero_numerator_free_response), iterator memories read lm+1 items (memory_iterator_reads), complex "
+            "histories / cascades (gauss_hist_model_eq_spec, gauss_cascade_model_eq_spec); round 3: special cases of the string building proved neutral for every field "
             "element (special_cases_neutral, term_value, unit_test_sound_iff), executable Q(i) instance tied to the real "
             "code with complex coefficients (gcall), call / constructor shapes with defaults (filterCallD_eq_specCallD), "
             "a[0] == 0 branch (callRaw_eq_specCallRaw); D4 (Fraction gain formatted as '(expr) / p/q') fixed in /repo "
@@ -109,13 +130,22 @@ MANIFEST = {
 # ---------------------------------------------------------------------------------------------
 def val(j):
     if isinstance(j, dict):
-        return float(j["f"])
+        if "f" in j:
+            return float(j["f"])
+        return X.val(j)                      # {"c": [re, im]} complex | {"b": bool}   (entries gcascade / gcompile)
     if isinstance(j, str):
         return Fraction(j)
     return int(j)
 
 
+def genc(y):
+    """a python number (complex included) -> JSON as the driver prints Gaussian rationals"""
+    return X.genc(X.g_of(y)) if isinstance(y, complex) else enc(y)
+
+
 def tag(v):
+    if isinstance(v, (bool, complex)):
+        return X.tag(v)
     if isinstance(v, float):
         return {"f": v}
     if isinstance(v, Fraction):
@@ -124,12 +154,14 @@ def tag(v):
 
 
 def exact(j):
-    """tagged number -> what the driver gets (int or 'p/q', floats at their exact binary value)"""
+    """tagged number -> what the driver gets (int or 'p/q', floats at their exact binary value; complex: [re, im])"""
+    if isinstance(j, dict) and "f" not in j:
+        return X.exact(j)
     return enc(val(j))
 
 
 def is_float(j):
-    return isinstance(j, dict)
+    return isinstance(j, dict) and "f" in j
 
 
 def is_nonint_frac(j):
@@ -251,6 +283,46 @@ def _expr(src, node):
     return [_atom(t) for t in _flat_sum(body)], gain
 
 
+def gain_literal(src):
+    """how the divisor of `m0 = (sum) / (gain)` is SPELLED in the generated source: "int" | "float" | "frac" (p/q of
+    integer literals) | "complex" | "other"; None when the statement is not a division by a constant"""
+    try:
+        fn = ast.parse(src).body[0]
+        loop = [st for st in fn.body if isinstance(st, ast.For)][0]
+        node = loop.body[0].value
+    except Exception:
+        return None
+    if not (isinstance(node, ast.BinOp) and isinstance(node.op, ast.Div) and _is_const(node.right)):
+        return None
+
+    def strip(n):
+        while isinstance(n, ast.UnaryOp) and isinstance(n.op, (ast.USub, ast.UAdd)):
+            n = n.operand
+        return n
+
+    def kind(n):
+        n = strip(n)
+        if isinstance(n, ast.Constant):
+            v = n.value
+            return "bool" if isinstance(v, bool) else "int" if isinstance(v, int) else "float" if isinstance(v, float) \
+                else "complex" if isinstance(v, complex) else "other"
+        if isinstance(n, ast.BinOp) and isinstance(n.op, ast.Div):
+            return "frac" if kind(n.left) == "int" and kind(n.right) == "int" else "other"
+        if isinstance(n, ast.BinOp) and isinstance(n.op, (ast.Add, ast.Sub)):
+            return "complex" if "complex" in (kind(n.left), kind(n.right)) else "other"
+        return "other"
+    return kind(node.right)
+
+
+def gain_spelling(j):
+    """how python formats a gain of that type into the source"""
+    if isinstance(j, dict):
+        return "float"
+    if isinstance(j, str):
+        return "int" if Fraction(j).denominator == 1 else "frac"
+    return "int"
+
+
 def parse_source(src):
     """source of the generated `gen` -> canonical IR (same JSON shape as the Lean driver prints)"""
     try:
@@ -309,9 +381,16 @@ def parse_source(src):
 # ---------------------------------------------------------------------------------------------
 # the real code
 # ---------------------------------------------------------------------------------------------
-def _mem_obj(m):
+ENDLESS = X.ENDLESS
+ITER_FLAVOURS = ("gen", "iter", "stream", "counting")      # memories that are ITERATORS: reading them is observable
+
+
+def _mem_obj(m, log=None):
+    """the memory object of a case; a callable memory notes every size it is asked for in `log`"""
     if m is None:
         return None
+    if log is None:
+        log = []
     k = m["kind"]
     if k == "iter":
         vals = [val(v) for v in m["vals"]]
@@ -328,6 +407,8 @@ def _mem_obj(m):
             return deque(vals)
         if how == "iter":
             return iter(vals)
+        if how == "counting":               # an iterator that counts what is pulled from it
+            return X._Counting(iter(vals))
         if how == "substream":              # a Stream subclass with its own __iter__
             from audiolazy import Stream
 
@@ -338,27 +419,47 @@ def _mem_obj(m):
         return list(vals)
     if k == "gen":
         base, step = val(m["base"]), val(m["step"])
-        return (base + i * step for i in itertools.count())
+        if m.get("as") == "counting":
+            return X._Counting(base + i * step for i in range(ENDLESS))
+        return (base + i * step for i in range(ENDLESS))
     form = m["form"]
+
+    def note(n, r):
+        log.append(n)
+        return r
     if form == "fixed":
         vals = [val(v) for v in m["vals"]]
         ret = m.get("ret", "list")
         if ret == "same":                  # always the very same list object
-            return lambda n: vals
+            return lambda n: note(n, vals)
         if ret == "tuple":
-            return lambda n: tuple(vals)
+            return lambda n: note(n, tuple(vals))
         if ret == "gen":
-            return lambda n: (v for v in vals)
+            return lambda n: note(n, (v for v in vals))
         if ret == "bound":                 # a bound method (callable, not iterable)
             class Holder(object):
                 def get(self, n):
-                    return list(vals)
+                    return note(n, list(vals))
             return Holder().get
-        return lambda n: list(vals)
+        return lambda n: note(n, list(vals))
     base, step = val(m["base"]), val(m["step"])
     if form == "arith":
-        return lambda n: [base + i * step for i in range(n)]
-    return lambda n: (base + (n - 1 - i) * step for i in range(n))     # arithrev, as a generator
+        return lambda n: note(n, [base + i * step for i in range(n)])
+    return lambda n: note(n, (base + (n - 1 - i) * step for i in range(n)))     # arithrev, as a generator
+
+
+def _mem_observe(c, m, obs, log):
+    """right after the call, before any output is requested: how far an iterator memory was read (the next two items
+    the caller can still get out of it; the number of items pulled when it counts), what a callable was asked"""
+    mc = c.get("mem")
+    if mc is None:
+        return
+    if mc["kind"] == "callable":
+        obs["asked"] = list(log)
+    elif mc.get("as") in ITER_FLAVOURS or (mc["kind"] == "gen" and mc.get("as") in (None, "counting")):
+        if isinstance(m, X._Counting):
+            obs["mem_pulled"] = m.n
+        obs["mem_next"] = [enc(v) for v in itertools.islice(iter(m), 2)]
 
 
 def _build(c):
@@ -410,12 +511,14 @@ def _xs_obj(xs, how):
 
 
 def impl(c):
-    if c["entry"] == "hist":
+    if c["entry"] in ("hist", "ghist"):
         return H.impl(c)
     if c["entry"] == "gcall":
         return X.impl(c)
-    if c["entry"] == "cascade":
+    if c["entry"] in ("cascade", "gcascade"):
         return impl_cascade(c)
+    if c["entry"] == "gcompile":
+        return impl_compile(c)
     return impl_call(c)
 
 
@@ -447,11 +550,37 @@ def impl_cascade(c):
         stage = "iter"
         out = list(cur)
         irs = [parse_source(src) for src in captured]
-        obs = {"out": [enc(y) for y in out], "n_exec": len(captured), "irs_equal": all(i == irs[0] for i in irs),
+        obs = {"out": [genc(y) for y in out], "n_exec": len(captured), "irs_equal": all(i == irs[0] for i in irs),
                "ir": irs[0] if irs else {"kind": "unparsed", "why": "no source captured"},
                "src": captured[0] if captured else None}
     except Exception as e:
         obs = {"err": err_kind(e), "stage": stage, "msg": str(e)[:80]}
+    finally:
+        lf._exec_eval = orig
+    return obs
+
+
+def impl_compile(c):
+    """T3 alone: the source `__call__` generates for the dense coefficient lists b, a (a[0] != 0, no trailing zero:
+    nothing is normalised or compacted on the way), against `compile b a zero` of the driver"""
+    import audiolazy.lazy_filters as lf
+    from audiolazy import ZFilter
+    captured = []
+    orig = lf._exec_eval
+
+    def spy(data, expr):
+        captured.append(data)
+        return orig(data, expr)
+
+    lf._exec_eval = spy
+    try:
+        filt = ZFilter([val(v) for v in c["b"]], [val(v) for v in c["a"]])
+        res = filt([], zero=val(c["zero"]))
+        list(res)
+        obs = {"n_exec": len(captured), "src": captured[-1] if captured else None,
+               "ir": parse_source(captured[-1]) if captured else {"kind": "unparsed", "why": "no source captured"}}
+    except Exception as e:
+        obs = {"err": err_kind(e), "msg": str(e)[:80]}
     finally:
         lf._exec_eval = orig
     return obs
@@ -476,14 +605,19 @@ def impl_call(c):
         obs["dendict"] = [[k, enc(v)] for k, v in sorted(filt.dendict.items())]
         stage = "call"
         kw = {"zero": val(c["zero"])}
-        m = _mem_obj(c.get("mem"))
+        asked = []
+        m = _mem_obj(c.get("mem"), asked)
         if m is not None:
             kw["memory"] = m
         xs = [val(x) for x in xs_of(c)]
         pristine = list(xs)
         res = filt(_xs_obj(xs, c.get("xs_as", "list")), **kw)
+        memobs = {}
+        _mem_observe(c, m, memobs, asked)
         stage = "iter"
         out = list(res)
+        obs.update(memobs)
+        obs["gain_lit"] = gain_literal(captured[-1]) if captured else None
         obs["out"] = [enc(y) for y in out]
         obs["float_out"] = any(isinstance(y, float) for y in out)
         obs["src"] = captured[-1] if captured else None
@@ -512,12 +646,14 @@ def _mem_req(m):
 
 
 def request(c):
-    if c["entry"] == "hist":
+    if c["entry"] in ("hist", "ghist"):
         return H.request(c)
     if c["entry"] == "gcall":
         return X.request(c)
-    if c["entry"] == "cascade":
-        return {"entry": "cascade", "num": [[k, exact(v)] for k, v in c["num"]], "den": [[k, exact(v)] for k, v in c["den"]],
+    if c["entry"] == "gcompile":
+        return {"entry": "gcompile", "b": [exact(v) for v in c["b"]], "a": [exact(v) for v in c["a"]], "zero": exact(c["zero"])}
+    if c["entry"] in ("cascade", "gcascade"):
+        return {"entry": c["entry"], "num": [[k, exact(v)] for k, v in c["num"]], "den": [[k, exact(v)] for k, v in c["den"]],
                 "zero": exact(c["zero"]), "xs": [exact(x) for x in c["xs"]], "mems": [_mem_req(m) for m in c["mems"]]}
     r = {"entry": "call",
          "num": [[k, exact(v)] for k, v in c["num"]],
@@ -645,26 +781,34 @@ def _compare_cascade(c, io, drv):
     if k and (io["n_exec"] != k or not io["irs_equal"] or io["ir"] != model["ir"]):
         out.append(("model", "%d stage(s) generated %d source(s) (all equal: %s); impl IR %r, model IR %r" % (
             k, io["n_exec"], io["irs_equal"], _abbr(io["ir"]), _abbr(model["ir"]))))
-    got = [dec(v) for v in io["out"]]
+    D = X.gdec if c["entry"] == "gcascade" else dec
+    got = [D(v) for v in io["out"]]
     for kind, ref, what in (("model", model, "output differs from model"),
                             ("spec", spec, "the filter applied %d times to its own output violates the difference equation" % k)):
-        want = [dec(v) for v in ref["out"]]
+        want = [D(v) for v in ref["out"]]
         if len(got) != len(want):
             out.append((kind, "%s: length %d instead of %d" % (what, len(got), len(want))))
         else:
-            bad = [i for i, (g, w) in enumerate(zip(got, want)) if isinstance(g, float) or g != w]
+            bad = [i for i, (g, w) in enumerate(zip(got, want)) if g is None or isinstance(g, float) or g != w]
             if bad:
                 out.append((kind, "%s: y[%d] = %s instead of %s" % (what, bad[0], got[bad[0]], want[bad[0]])))
     return out
 
 
 def compare(c, io, drv):
-    if c["entry"] == "hist":
+    if c["entry"] in ("hist", "ghist"):
         return H.compare(c, io, drv)
     if c["entry"] == "gcall":
         return X.compare(c, io, drv)
-    if c["entry"] == "cascade":
+    if c["entry"] in ("cascade", "gcascade"):
         return _compare_cascade(c, io, drv)
+    if c["entry"] == "gcompile":
+        if "err" in io:
+            return [("model", "compile case raised %s (%s)" % (io["err"], io.get("msg")))]
+        if io.get("n_exec") != 1 or io["ir"] != drv["ir"]:
+            return [("model", "generated source differs from compile (dense lists b=%r a=%r zero=%r): impl IR %r, model IR %r; source:\n%s" % (
+                c["b"], c["a"], c["zero"], _abbr(io["ir"]), _abbr(drv["ir"]), io.get("src")))]
+        return []
     out = _compare_call(c, io, drv)
     if any(k == "spec" for k, _ in out) and not io.get("isolated") and _ISO_BUDGET[0] > 0:
         _ISO_BUDGET[0] -= 1
@@ -717,11 +861,34 @@ def _compare_call(c, io, drv):
         src = io.get("src") or ""
         out.append(("model", "generated source differs from compile: impl IR %r, model IR %r; source:\n%s" % (
             _abbr(io["ir"]), _abbr(model["ir"]), src if len(src) < 600 else src[:300] + "\n…\n" + src[-200:])))
+    # --- the gain literal: the divisor is the gain ITSELF, spelled in its own type (an int gain divides exact samples
+    # exactly; `float(gain)` or a reciprocal would not) -----------------------------------------------------------------
+    mir = model["ir"]
+    if mir.get("kind") == "loop" and mir["gain"][0] == "div" and io["ir"] == mir and _unshifted(c):
+        want = gain_spelling(gain_of(c))
+        if io.get("gain_lit") != want:
+            out.append(("model", "the gain %r is written into the source as a %s literal, not as the %s it is; source:\n%s" % (
+                gain_of(c), io.get("gain_lit"), want, (io.get("src") or "")[:400])))
+    # --- how the memory was read (at the call) ----------------------------------------------------------------
+    mr = model.get("memread")
+    if "mem_next" in io and mr is not None:
+        if [dec(v) for v in io["mem_next"]] != [dec(v) for v in mr["next"]]:
+            out.append(("model", "iterator memory: after the call the caller's iterator delivers %r next, model (takewhile pulls "
+                                 "%d item(s)) says %r" % (io["mem_next"], mr["pulled"], mr["next"])))
+        if "mem_pulled" in io and io["mem_pulled"] != mr["pulled"]:
+            out.append(("model", "iterator memory: %d item(s) pulled at the call, model says %d" % (io["mem_pulled"], mr["pulled"])))
+    if "asked" in io and io["asked"] != model.get("asked"):
+        out.append(("spec", "the callable memory was asked %r, the property says once for the needed size: %r" % (
+            io["asked"], model.get("asked"))))
     # --- I/O --------------------------------------------------------------------------------
     got = [dec(v) for v in io["out"]]
     d = _outs_equal(c, got, [dec(v) for v in model["out"]], model)
     if d:
         out.append(("model", "output differs from model: " + d))
+    if "free" in model and not _short_memory(c, model):
+        d = _outs_equal(c, got, [dec(v) for v in model["free"]], model)
+        if d:
+            out.append(("spec", "zero numerator with feedback: the output is not the free response of the memory: " + d))
     if _short_memory(c, model):
         # outside the property's quantifier ("memories of sufficient length"): the LEFT padding is
         # checked against the model only (as coded), never reported as a violated property
@@ -734,6 +901,14 @@ def _compare_call(c, io, drv):
     return out
 
 
+def _unshifted(c):
+    """were the coefficients stored as given (no z-arithmetic, no normalisation shift in __init__)?"""
+    if c.get("route", "dict") not in ("list", "linear", "poly", "cast", "dict", "odict"):
+        return False
+    nz = [k for k, v in c["den"] if val(v) != 0]
+    return bool(nz) and min(nz) == 0
+
+
 def _short_memory(c, model):
     m = c.get("mem")
     if m is None or "vals" not in m:
@@ -742,12 +917,14 @@ def _short_memory(c, model):
 
 
 def nontrivial(c, io):
-    if c["entry"] == "hist":
+    if c["entry"] in ("hist", "ghist"):
         return H.nontrivial(c, io)
     if c["entry"] == "gcall":
         return X.nontrivial(c, io)
-    if c["entry"] == "cascade":
+    if c["entry"] in ("cascade", "gcascade"):
         return "err" in io or (bool(io.get("out")) and len(c["mems"]) >= 2)
+    if c["entry"] == "gcompile":
+        return io.get("ir", {}).get("kind") in ("loop", "const")
     return "err" in io or bool(io.get("out"))
 
 
@@ -775,11 +952,13 @@ def _d4_prediction(c, model):
 
 
 def classify(c, io, drv):
-    if c["entry"] == "hist":
+    if c["entry"] in ("hist", "ghist"):
         return H.classify(c, io, drv)
     if c["entry"] == "gcall":
         return X.classify(c, io, drv)
-    if c["entry"] == "cascade":
+    if c["entry"] == "gcompile":
+        return "gcompile:" + ("raises-%s" % io["err"] if "err" in io else "ir-differs")
+    if c["entry"] in ("cascade", "gcascade"):
         ps = _compare_cascade(c, io, drv)
         if "err" in io:
             return "cascade:raises-%s-at-%s" % (io["err"], io.get("stage"))
@@ -1071,6 +1250,165 @@ def _gen_long(rng, tier, scale):
     return out
 
 
+
+# ---- round 4 families: the free response, the gain operator, how memories are read ---------------------------
+ZERO_SPELLINGS = {"int": 0, "frac": "0/1", "float": {"f": 0.0}}
+
+
+def _gen_gcascade(rng, tier, scale):
+    """re-entrant use with COMPLEX coefficients (entry gcascade): one filter object applied 2-4 times to its own lazy
+    output; Gaussian-integer coefficients and data, gain 1 / -1 in every spelling (no division: complex doubles exact)"""
+    gi = X._c
+    pool = [0, 1, -1, gi(0, 1), gi(0, -1), gi(1, 1), 2, gi(0, 2), gi(1, 0), gi(-1, 0), gi(2, -1), {"b": True}, -2]
+    smp = lambda: gi(rng.randint(-3, 3), rng.randint(-3, 3)) if rng.random() < 0.75 else rng.randint(-5, 5)
+    out = []
+    for _ in range((120 if tier == "quick" else 1500) * scale):
+        route = rng.choice(["list", "list", "dict", "linear", "poly", "cast"])
+        lb, la = rng.choice([1, 2, 2, 3]), rng.choice([1, 2, 2, 3])
+        b = [rng.choice(pool) for _ in range(lb)]
+        a = [rng.choice([1, -1, gi(1, 0), gi(-1, 0), {"b": True}, {"f": 1.0}, "-1/1"])] + [rng.choice(pool) for _ in range(la - 1)]
+        num, den = [[k, v] for k, v in enumerate(b)], [[k, v] for k, v in enumerate(a)]
+        if route == "dict":
+            num = [[k, v] for k, v in num if val(v) != 0]
+            den = [[k, v] for k, v in den if val(v) != 0]
+        lm = _lm_of(den)
+        mems = []
+        for _ in range(rng.choice([2, 2, 3, 4])):
+            r = rng.random()
+            mems.append(None if r < 0.35 else
+                        {"kind": "iter", "vals": [smp() for _ in range(lm + rng.choice([0, 0, 1]))],
+                         "as": rng.choice(["list", "tuple", "gen", "stream", "deque"])} if r < 0.85 else
+                        {"kind": "callable", "form": "arith", "base": smp(), "step": smp()})
+        out.append({"entry": "gcascade", "route": route, "num": num, "den": den, "mems": mems,
+                    "zero": rng.choice([0, 0, gi(0, 0), 7, gi(2, -1)]),
+                    "xs": [smp() for _ in range(rng.choice([0, 1, 3, 5, 8]))],
+                    "xs_as": rng.choice(["list", "iter", "tuple", "gen", "stream"])})
+    return out
+
+
+def _gen_gcompile(rng, tier, scale):
+    """T3 on dense lists (entry gcompile): every spelling of the special values in every position of the numerator,
+    the feedback part and the gain, + random vectors over all pools, + the all-zero filter with every zero spelling"""
+    gi = X._c
+    nz = lambda v: not X.g_of(X.val(v)).is_zero()
+    out = []
+    zeros = [0, {"f": 0.0}, "0/1", gi(0, 0), {"b": False}, 7, gi(0, 1), gi(2, -1), "1/2", {"f": 0.5}, {"b": True}, -3, X.HUGE]
+    if scale == 1:
+        for sv in X.SPECIALS:
+            for side, k in (("b", 0), ("b", 1), ("b", 2), ("a", 1), ("a", 2), ("a", 0)):
+                b = [2, 3, gi(1, 1), 5]
+                a = [rng.choice([1, -1, 2, gi(0, 1), 1]), 3, gi(0, 2), -7]
+                if side == "a" and k == 0 and not nz(sv):
+                    continue
+                (b if side == "b" else a)[k] = sv
+                out.append({"entry": "gcompile", "b": b, "a": a, "zero": rng.choice(zeros)})
+        for z in zeros:                       # the all-zero filter: `yield {zero}`
+            out.append({"entry": "gcompile", "b": rng.choice([[], [0], [gi(0, 0), {"f": 0.0}]]),
+                        "a": [rng.choice([1, 2, gi(0, 1), -1])] + rng.choice([[], [0], [0, {"f": 0.0}]]), "zero": z})
+    for _ in range((150 if tier == "quick" else 3000) * scale):
+        pool = X.POOLS[rng.choice(["all", "all", "gaussint", "unit", "intbool", "huge", "dyadic", "frac"])]
+        b = [rng.choice(pool) for _ in range(rng.choice([0, 1, 2, 3, 5]))]
+        a = [rng.choice(pool) for _ in range(rng.choice([1, 2, 3, 4]))]
+        if b and not nz(b[-1]):
+            b[-1] = X._nz(rng, pool)
+        if not nz(a[-1]):
+            a[-1] = X._nz(rng, pool)
+        if not nz(a[0]):
+            a[0] = X._nz(rng, pool)
+        out.append({"entry": "gcompile", "b": b, "a": a, "zero": rng.choice(zeros)})
+    return out
+
+
+def _gen_free(rng, tier, scale):
+    """all-zero numerators (every spelling and length, incl. none at all) x denominators of order >= 1 x memory kinds x
+    zero values: the trivial `yield zero` generator must NOT be chosen; exact regime (int coefficients, Fraction data)"""
+    out = []
+    for _ in range((220 if tier == "quick" else 3000) * scale):
+        route = rng.choice(["list", "list", "dict", "odict", "linear", "poly", "cast", "zexpr"])
+        zs = ZERO_SPELLINGS[rng.choice(["int", "int", "frac", "float"])]
+        nb = rng.choice([0, 1, 1, 2, 3])
+        la = rng.choice([2, 2, 3, 4])
+        a = [rng.choice([1, 1, -1, 2, -3])] + [rng.choice([0, 1, -1, 2, -2, 3]) for _ in range(la - 1)]
+        a[-1] = rng.choice([1, -1, 2, -2, 3])
+        num = [[k, zs] for k in range(nb)]
+        den = [[k, v] for k, v in enumerate(a)]
+        if route in ("dict", "odict", "zexpr"):
+            num = [kv for kv in num if rng.random() < 0.5]
+            den = [[k, v] for k, v in den if v != 0]
+            if route != "zexpr" and rng.random() < 0.3:        # a common delay: normalised away
+                off = rng.choice([1, 2])
+                num, den = [[k + off, v] for k, v in num], [[k + off, v] for k, v in den]
+        lm = la - 1
+        r = rng.random()
+        if r < 0.3:
+            mem = None
+        elif r < 0.75:
+            mem = {"kind": "iter", "vals": [_sample(rng, "frac") for _ in range(lm + rng.choice([0, 0, 0, 1, 2]))],
+                   "as": rng.choice(["list", "tuple", "gen", "iter", "stream", "deque", "counting"])}
+        elif r < 0.85:
+            mem = {"kind": "gen", "base": _sample(rng, "frac"), "step": _sample(rng, "frac"), "as": rng.choice(["counting", None])}
+        else:
+            mem = {"kind": "callable", "form": rng.choice(["arith", "arithrev"]), "base": _sample(rng, "frac"), "step": _sample(rng, "frac")}
+        out.append({"entry": "call", "route": route, "num": num, "den": den, "mem": mem, "family": "free",
+                    "zero": rng.choice(["7/1", "7/1", "-2/1", "1/1", "0/1", "1/3"]) if mem is None or rng.random() < 0.5 else "0/1",
+                    "xs": [_sample(rng, "frac") for _ in range(rng.choice([1, 2, 3, 5, 6]))],
+                    "xs_as": rng.choice(["list", "iter", "tuple", "gen", "stream"])})
+    return out
+
+
+GAIN_POOL = [2, 3, -3, 5, 7, -2, 4, 10, 10 ** 30, -(10 ** 18) - 1, "3/1", "-2/1", "7/1", "1/2", "-5/2", "3/7",
+             {"f": 2.0}, {"f": -0.5}, {"f": 3.0}]
+EXACT_SAMPLES = ["1/3", "-2/7", "5/1", "1/1", "22/9", "-13/11", "%d/1" % (10 ** 30 + 7), "%d/3" % (10 ** 20 + 1), "0/1", "1/1000003"]
+
+
+def _gen_gain(rng, tier, scale):
+    """a[0] of every spelling other than +-1 (int, negative, huge, integer-valued and other Fractions, floats) x exact
+    samples (Fractions with odd denominators, huge integers as Fractions): with an int gain the outputs are EXACT"""
+    out = []
+    for i in range((260 if tier == "quick" else 3000) * scale):
+        g = GAIN_POOL[i % len(GAIN_POOL)] if i < 3 * len(GAIN_POOL) else rng.choice(GAIN_POOL)
+        lb, la = rng.choice([1, 2, 3]), rng.choice([1, 2, 2, 3])
+        b = [rng.choice([1, -1, 2, 3, 0, -5]) for _ in range(lb)]
+        if all(v == 0 for v in b) and la == 1:
+            b[0] = 1
+        a = [g] + [rng.choice([1, -1, 2, 0, -3]) for _ in range(la - 1)]
+        route = rng.choice(["list", "list", "dict", "odict", "linear", "poly", "cast", "zexpr"])
+        num, den = [[k, v] for k, v in enumerate(b)], [[k, v] for k, v in enumerate(a)]
+        if route in ("dict", "odict", "zexpr"):
+            num = [[k, v] for k, v in num if v != 0]
+            den = [[k, v] for k, v in den if val(v) != 0]
+        lm = _lm_of(den)
+        mem = None if rng.random() < 0.4 else {"kind": "iter", "vals": [rng.choice(EXACT_SAMPLES) for _ in range(lm)],
+                                               "as": rng.choice(["list", "tuple", "gen", "counting"])}
+        out.append({"entry": "call", "route": route, "num": num, "den": den, "mem": mem, "family": "gain",
+                    "zero": rng.choice(["0/1", "0/1", "7/1", "1/3"]),
+                    "xs": [rng.choice(EXACT_SAMPLES) for _ in range(rng.choice([1, 2, 3, 5]))],
+                    "xs_as": rng.choice(["list", "iter", "tuple"])})
+    return out
+
+
+def _gen_memread(rng, tier, scale):
+    """iterator memories of every length around the order (0 .. lm+3, endless) on filters of order 0..4: the caller's
+    iterator is observed right after the call (items pulled, what it delivers next)"""
+    out = []
+    for _ in range((220 if tier == "quick" else 3000) * scale):
+        lm = rng.choice([0, 0, 1, 1, 2, 3, 4])
+        a = [rng.choice([1, -1, 2])] + [rng.choice([0, 1, -1, 2]) for _ in range(lm)]
+        if lm:
+            a[-1] = rng.choice([1, -1, 2, -3])
+        b = [rng.choice([1, -1, 2, 0, 3]) for _ in range(rng.choice([0, 1, 2, 3]))]
+        if rng.random() < 0.8:
+            n = rng.choice([0, max(0, lm - 1), lm, lm, lm + 1, lm + 1, lm + 2, lm + 3])
+            mem = {"kind": "iter", "vals": ["%d/1" % (10 + i) for i in range(n)], "as": rng.choice(["counting", "counting", "gen", "iter", "stream"])}
+        else:
+            mem = {"kind": "gen", "base": _sample(rng, "frac"), "step": rng.choice(["1/1", "1/2", "-3/1"]), "as": rng.choice(["counting", None])}
+        out.append({"entry": "call", "route": rng.choice(["list", "linear", "poly"]), "family": "memread",
+                    "num": [[k, v] for k, v in enumerate(b)], "den": [[k, v] for k, v in enumerate(a)], "mem": mem,
+                    "zero": rng.choice(["0/1", "7/1"]), "xs": [_sample(rng, "frac") for _ in range(rng.choice([0, 1, 3]))],
+                    "xs_as": rng.choice(["list", "iter"])})
+    return out
+
+
 def generate(rng, tier, scale=1):
     # the process every history is forked from is started now, while this process is still small (a fork copies the
     # page tables: forked after tens of thousands of cases exist, every child costs 10x more)
@@ -1114,6 +1452,12 @@ def generate(rng, tier, scale=1):
             den = [[k, v] for k, v in dict((k, v) for k, v in den).items()]
         cases.append(_case(rng, route, num, den, 6, "frac"))
     cases.extend(_gen_cascade(random.Random(rng.random()), tier, scale))
+    r4 = random.Random(rng.random())
+    cases.extend(_gen_free(r4, tier, scale))
+    cases.extend(_gen_gain(r4, tier, scale))
+    cases.extend(_gen_memread(r4, tier, scale))
+    cases.extend(_gen_gcascade(r4, tier, scale))
+    cases.extend(_gen_gcompile(r4, tier, scale))
     # long runs / large orders, then histories (own random streams: the batches above keep their draws)
     cases.extend(_gen_long(random.Random(rng.random()), tier, scale))
     cases.extend(H.generate(random.Random(rng.random()), tier, scale))
@@ -1127,11 +1471,19 @@ def generate(rng, tier, scale=1):
 # ---------------------------------------------------------------------------------------------
 def tally(eng, c, io):
     eng.count("entry", c["entry"] + ("/long" if c.get("long") else ""))
-    if c["entry"] == "hist":
+    if c["entry"] in ("hist", "ghist"):
         return H.tally(eng, c, io)
     if c["entry"] == "gcall":
         return X.tally(eng, c, io)
-    if c["entry"] == "cascade":
+    if c["entry"] == "gcompile":
+        ir = io.get("ir", {})
+        eng.count("gcompile_ir", ir.get("kind"))
+        if ir.get("kind") == "loop":
+            eng.count("gcompile_gain", ir["gain"][0] + (":complex" if len(ir["gain"]) > 1 and isinstance(ir["gain"][1], list) else ""))
+            for a in ir["sum"]:
+                eng.count("gcompile_atom", "%s:%s%s" % (a[-2], a[0], ":complex" if a[0] == "mul" and isinstance(a[1], list) else ""))
+        return
+    if c["entry"] in ("cascade", "gcascade"):
         eng.count("cascade_stages", len(c["mems"]))
         eng.count("cascade_memories", "+".join(sorted({"none" if m is None else m.get("as", m["kind"]) for m in c["mems"]})) or "-")
         eng.count("cascade_result", "error" if "err" in io else "outputs")
@@ -1145,6 +1497,17 @@ def tally(eng, c, io):
         eng.count("long_samples", "Fraction" if c.get("xs_pat", {}).get("frac") or any(isinstance(x, str) for x in c.get("xs", [])) else "int")
     eng.count("xs_flavour", c.get("xs_as", "list"))
     eng.count("route", c.get("route", "dict"))
+    if c.get("family"):
+        eng.count("family", c["family"])
+        if c["family"] == "gain":
+            g = gain_of(c)
+            eng.count("gain_family_spelling", gain_spelling(g) + (":negative" if val(g) < 0 else "") + (":huge" if abs(val(g)) > 2 ** 63 else ""))
+        if c["family"] == "free" and "out" in io:
+            eng.count("free_response", "non-zero" if any(dec(v) != 0 for v in io["out"]) else "silent")
+    if "mem_next" in io:
+        eng.count("iterator_memory_pulled", io.get("mem_pulled", "uncounted"))
+    if "asked" in io:
+        eng.count("callable_memory_asked", len(io["asked"]))
     m = c.get("mem")
     eng.count("memory", "none" if m is None else (m["kind"] + ":" + ((m.get("form") + ("/" + m["ret"] if "ret" in m else "")) if m.get("form")
                                                                      else (m.get("as", "list") if m["kind"] == "iter" else "endless"))))
@@ -1177,6 +1540,8 @@ def tally(eng, c, io):
 # shrinking / neighbours
 # ---------------------------------------------------------------------------------------------
 def _simplify_num(j):
+    if isinstance(j, dict) and "f" not in j:          # complex / bool tags (entry gcascade)
+        return X._simpler(j)
     v = val(j)
     outs = []
     if is_float(j):
@@ -1189,7 +1554,7 @@ def _simplify_num(j):
 
 
 def shrink(c):
-    if c["entry"] == "hist":
+    if c["entry"] in ("hist", "ghist"):
         for d in H.shrink(c):
             yield d
         return
@@ -1197,7 +1562,17 @@ def shrink(c):
         for d in X.shrink(c):
             yield d
         return
-    if c["entry"] == "cascade":
+    if c["entry"] == "gcompile":
+        for side in ("b", "a"):
+            l = c[side]
+            for i in range(len(l)):
+                if len(l) > 1 and not (side == "a" and i == 0) and i < len(l) - 1:
+                    yield dict(c, **{side: l[:i] + l[i + 1:]})
+                for sv in X._simpler(l[i]):
+                    if not (X.g_of(X.val(sv)).is_zero() and (i == len(l) - 1 or (side == "a" and i == 0))):
+                        yield dict(c, **{side: l[:i] + [sv] + l[i + 1:]})
+        return
+    if c["entry"] in ("cascade", "gcascade"):
         ms = c["mems"]
         for i in range(len(ms)):
             yield dict(c, mems=ms[:i] + ms[i + 1:])
@@ -1366,7 +1741,7 @@ def neighbours(c):
         for d in X.neighbours(c):
             yield d
         return
-    if c["entry"] in ("hist", "cascade") or c.get("long"):
+    if c["entry"] in ("hist", "ghist", "cascade", "gcascade", "gcompile") or c.get("long"):
         return
     for side in ("num", "den"):
         ps = c[side]
@@ -1406,6 +1781,8 @@ _SELFTEST_EDITS = [
     ("    m2 = m1\n    m1 = m0", "    m1 = m0\n    m2 = m1"), ("    d3 = d2\n", ""), ("d1 = d0", "d1 = d1"),
     ("--5/2", "-5/2"), ("m1 , m2 , = memory", "m2 , m1 , = memory"), ("d1 = d2 = d3 = zero", "d1 = d2 = zero"),
     ("(d0 + ", "-(d0 + "), ("yield m0", "yield d0"), ("1/3", "1/4"),
+    # the gain is applied by DIVISION: a reciprocal multiplication is another program (exact samples would be rounded)
+    (") / 2", ") * 0.5"), (") / 2", ") * (1/2)"), ("m0 = (d0", "m0 = 0.5 * (d0"), (") / 2", ") // 2"),
 ]
 
 
@@ -1448,6 +1825,12 @@ def extra_checks(eng):
         if parse_source(_SELFTEST_SRC.replace(old, new, 1)) == _SELFTEST_IR:
             blind.append((old, new))
     yield ("T3-parser-sees-seeded-edits(%d)" % len(_SELFTEST_EDITS), not blind, "edits not seen: %r" % (blind,))
+    lits = [("(2)", "int"), ("(-3)", "int"), ("(2.0)", "float"), ("(-5/2)", "frac"), ("((1+2j))", "complex"), ("(1e+30)", "float"),
+            ("(1000000000000000000000000000000)", "int")]
+    bad = [(l, gain_literal(_SELFTEST_SRC.replace(") / 2", ") / " + l))) for l, k in lits
+           if gain_literal(_SELFTEST_SRC.replace(") / 2", ") / " + l)) != k]
+    yield ("T3-gain-literal-spelling(%d)" % len(lits), not bad and gain_literal(_SELFTEST_SRC.replace(") / 2", ") * 0.5")) is None,
+           "misread: %r" % (bad,))
     neg = parse_source("def gen(seq, memory, zero):\n  for d0 in seq:\n    m0 = -(d0)\n    yield m0")
     pos = parse_source("def gen(seq, memory, zero):\n  for d0 in seq:\n    m0 = -d0\n    yield m0")
     yield ("T3-parser-separates-gain-minus-from-atom-minus",
